@@ -8,6 +8,7 @@ mod util;
 mod fixture;
 mod c01;
 mod c02;
+mod c03;
 mod c08;
 mod c09;
 mod c10;
@@ -50,6 +51,7 @@ fn main() {
         "C06" => c01::run_c06(&mut r),
         "C07" => c01::run_c07(&mut r),
         "C02" => c02::run(&mut r),
+        "C03" => c03::run(&mut r),
         "C08" => c08::run(&mut r),
         "C09" => c09::run_c09(&mut r),
         "C05" => { c10::run_c05(&mut r); c09::run_c09(&mut r) }
